@@ -798,6 +798,7 @@ func (fc *FnCtx) selectStmt(st *State, x *ssa.Select) {
 	out.T = append(out.T, recvOk)
 	var knownReady []Term
 	recvVals := map[int]SV{}
+	sentVals := map[int]SV{} // `sendval` in select anchors of send cases
 	for k, s := range x.States {
 		chosen := mkEq(idx, num(int64(k)))
 		sub := st.clone()
@@ -806,6 +807,7 @@ func (fc *FnCtx) selectStmt(st *State, x *ssa.Select) {
 		closed := fc.ghostGet(st, "chanClosed", SBool, c)
 		if s.Dir == types.SendOnly {
 			fc.chanInv(sub, s.Chan, fc.val(s.Send), true, s.Pos, fmt.Sprintf("select#%d case %d send", fc.selectOrd(x), k))
+			sentVals[k] = fc.val(s.Send)
 			continue
 		}
 		fc.timerRecv(st, s.Chan, chosen)
@@ -844,6 +846,9 @@ func (fc *FnCtx) selectStmt(st *State, x *ssa.Select) {
 			env.atInstr = x
 			if rv, ok := recvVals[a.Case]; ok {
 				env.vars["result"] = rv
+			}
+			if sv, ok := sentVals[a.Case]; ok {
+				env.vars["sendval"] = sv
 			}
 			fc.vc.safeEval(fmt.Sprintf("%s:%d at select", a.C.File, a.C.Line), func() {
 				switch a.What {
